@@ -484,6 +484,14 @@ private:"""),
                 const auto it = std::upper_bound(begin, end, m_thresholds(bin), op);""",
          new="""                using tvalue = typename std::iterator_traits<titerator>::value_type;
                 const auto it = std::lower_bound(begin, end, static_cast<tvalue>(m_thresholds(bin)));"""),
+    dict(property="C09", name="linear-weight-gradient-without-inputs", rule="R-C09-8", file="src/linear/function.cpp",
+         old="accumulator.m_gW1.matrix() += gmatrix.transpose() * inputs;", new="accumulator.m_gW1.matrix() += gmatrix.transpose() * inputs.matrix().cwiseAbs();"),
+    dict(property="C06", name="linear-bias-gradient-doubled", rule="R-C06-8", file="src/linear/function.cpp",
+         old="accumulator.m_gb1.vector() += gmatrix.matrix().colwise().sum();", new="accumulator.m_gb1.vector() += 2.0 * gmatrix.matrix().colwise().sum();"),
+    dict(property="C06", name="linear-l2-gradient-per-input", rule="R-C06-8", file="src/linear/function.cpp",
+         old="gW.array() += m_l2reg * W.array() / W.size();", new="gW.array() += m_l2reg * W.array() / W.cols();"),
+    dict(property="C09", name="linear-predict-without-bias", rule="R-C09-8", file="src/linear/util.cpp",
+         old="    outputs.reshape(samples, tsize).matrix().rowwise() += bias.vector().transpose();", new="    static_cast<void>(bias);"),
     dict(property="C14", name="make-scaling-skipped-for-small-range", rule="R-C14-8", file="src/dataset/stats.cpp",
          old="    if (stats.m_min.size() > 0)\n    {\n        switch (scaling)", new="    if (stats.m_min.size() > 0 && stats.m_div_range.max() < 1e+6)\n    {\n        switch (scaling)"),
     dict(property="C14", name="make-scaling-early-return-without-samples", rule="R-C14-8", file="src/dataset/stats.cpp",
